@@ -13,13 +13,15 @@ namespace OxiVerif.C01
 /-- kind of run-time failure of the real code -/
 inductive PK where
   | add | sub | mul | rem0 | index
+  /-- `&s[a..b]` on a `str` where `a` or `b` is not a char boundary -/
+  | boundary
   /-- allocation of a caller-controlled size before any validation (allocator abort) -/
   | alloc
 deriving Repr, DecidableEq, BEq
 
 def PK.name : PK → String
   | .add => "add" | .sub => "sub" | .mul => "mul" | .rem0 => "rem0" | .index => "index"
-  | .alloc => "alloc"
+  | .alloc => "alloc" | .boundary => "boundary"
 
 inductive Outcome (α : Type) where
   | ok : α → Outcome α
